@@ -178,7 +178,11 @@ pub fn check_case(c: &Case, rep: &mut Report) {
 /// On success every declared binding appears exactly once, in its own group, with its own index.
 fn check_ok_module(c: &Case, text: &str) -> Result<(), String> {
     let m = omodel::parse(text).unwrap_or_else(|e| machinery(&format!("C11: {e}")));
-    let bg = m.bind_groups().unwrap_or_else(|e| machinery(&format!("C11: cannot read bind groups: {e}")));
+    let bg = match m.bind_groups() {
+        Ok(b) => b,
+        Err(omodel::interp::UnknownName::Missing(v)) => return Err(format!("a declared group lacks its items: {v}")),
+        Err(e) => machinery(&format!("C11: cannot read bind groups: {e}")),
+    };
     let mut declared: BTreeMap<u64, Vec<(u64, String)>> = BTreeMap::new();
     for (i, (g, b)) in c.slots.iter().enumerate() {
         declared.entry(*g).or_default().push((*b, var_name(i)));
